@@ -41,6 +41,7 @@ EXEC_SITES: List[Tuple[str, str, str, str]] = [
     ("duckdb_transpiler/io/_time_handling.py", "apply_time_period_representation", r"UPDATE", "SFetchRepr"),
     ("duckdb_transpiler/io/_time_handling.py", "apply_time_period_representation", r"LIMIT 0", "SFetchSelect"),
     ("duckdb_transpiler/io/_execution.py", "_build_dataset_fetch_select", r".*", "SFetchSelect"),
+    ("duckdb_transpiler/io/_execution.py", "_fetch_result_impl", r"SELECT \*|fetch_sql", "SFetchSelect"),
     ("duckdb_transpiler/io/_execution.py", "fetch_result", r"SELECT \*|fetch_sql", "SFetchSelect"),
     ("duckdb_transpiler/io/_io.py", "save_datapoints_duckdb", r"COPY", "SSave"),
     ("duckdb_transpiler/io/_io.py", "save_datapoints_duckdb", r"DROP TABLE", "SDrop"),
@@ -50,6 +51,15 @@ EXEC_SITES: List[Tuple[str, str, str, str]] = [
     ("duckdb_transpiler/io/_io.py", "_load_parquet", r"DROP TABLE", "SDrop"),
     ("duckdb_transpiler/io/_io.py", "register_dataframes", r"DROP TABLE", "SDrop"),
 ]
+
+# a function whose execute calls have no handler of their own may be protected by the handler around its only call site:
+# callee -> (file, caller) to look into (followed transitively)
+WRAPPED_BY = {
+    "apply_time_period_representation": ("duckdb_transpiler/io/_execution.py", "_fetch_result_impl"),
+    "_build_dataset_fetch_select": ("duckdb_transpiler/io/_execution.py", "_fetch_result_impl"),
+    "save_datapoints_duckdb": ("duckdb_transpiler/io/_execution.py", "_fetch_result_impl"),
+    "_fetch_result_impl": ("duckdb_transpiler/io/_execution.py", "fetch_result"),
+}
 
 # origin stage of the Python-built error templates, by (file, function)
 PY_TEMPLATE_STAGE = {
@@ -376,6 +386,49 @@ def _handler_kind(h: ast.ExceptHandler) -> Optional[str]:
     return "Other"
 
 
+def _lexical_handler(node: ast.AST, parents: Dict[ast.AST, ast.AST]) -> Tuple[Optional[str], Optional[str]]:
+    """(handler kind of the innermost try/except duckdb.Error lexically around node, name of the enclosing function)"""
+    f, kinds, fname = node, [], None
+    while f in parents:
+        child, f = f, parents[f]
+        if isinstance(f, ast.Try) and child in f.body:
+            for h in f.handlers:
+                k = _handler_kind(h)
+                if k:
+                    kinds.append(k)
+                    break
+        if isinstance(f, ast.With) and any("suppress" in ast.unparse(i.context_expr) for i in f.items):
+            kinds.append("Swallow")
+        if isinstance(f, (ast.FunctionDef, ast.AsyncFunctionDef)):
+            fname = f.name
+            break
+    return (kinds[0] if kinds else None), fname
+
+
+def _caller_handler(func: str, depth: int = 0) -> Optional[str]:
+    """handler around the call of `func` in its declared caller (WRAPPED_BY), followed upwards"""
+    if depth > 4 or func not in WRAPPED_BY:
+        return None
+    rel, caller = WRAPPED_BY[func]
+    path = SRC / rel
+    if not path.exists():
+        return None
+    tree = ast.parse(path.read_text())
+    parents: Dict[ast.AST, ast.AST] = {}
+    for n in ast.walk(tree):
+        for c in ast.iter_child_nodes(n):
+            parents[c] = n
+    found = []
+    for n in ast.walk(tree):
+        if isinstance(n, ast.Call) and ((isinstance(n.func, ast.Name) and n.func.id == func) or (isinstance(n.func, ast.Attribute) and n.func.attr == func)):
+            k, fname = _lexical_handler(n, parents)
+            if fname == caller:
+                found.append(k or _caller_handler(caller, depth + 1))
+    if found and all(x == found[0] for x in found):
+        return found[0]
+    return None
+
+
 def scan_stage_flags() -> Tuple[Dict[str, Optional[str]], List[str]]:
     """stage -> mapper applied around the conn.execute calls of that stage (None when a call site could not be classified)"""
     found: Dict[str, List[str]] = {}
@@ -420,7 +473,7 @@ def scan_stage_flags() -> Tuple[Dict[str, Optional[str]], List[str]]:
                 if fname in {fn for fr, fn, _, _ in EXEC_SITES if fr == rel}:
                     notes.append(f"secondary tie unavailable: unclassified execute site {rel}:{n.lineno} in {fname}")
                 continue
-            found.setdefault(stage, []).append(kinds[0] if kinds else "NoMap")
+            found.setdefault(stage, []).append(kinds[0] if kinds else (_caller_handler(fname) or "NoMap"))
     flags: Dict[str, Optional[str]] = {}
     for st in STAGES:
         ks = found.get(st)
